@@ -57,6 +57,8 @@ def family(label):
         return "concurrent-twin-shares-verification"
     if label.startswith("id=") or label.startswith("id-"):
         return "supplied-id-not-the-hash" if not any(x in label for x in ("63", "65", "non-hex", "upper", "=5", "None", "[]", "True", "missing")) else "id-malformed"
+    if "hex-with-blank" in label:
+        return "hex-with-blank/" + label.split("=")[0]
     if label.startswith("pubkey=upper"):
         return "hex-case/pubkey"
     if label.startswith("sig=upper"):
@@ -134,7 +136,8 @@ def judge(backend, path, cases, d, pushed, counters):
 ALL_KINDS = [0, 1, 3, 4, 5, 7, 40, 1984, 9735, 10000, 10001, 10002, 19999, 20000, 29999, 30000, 30023, 39999, 40000, 65535]
 
 
-async def run_ws_api(backend, path, cases, counters):
+async def run_ws_api(backend, path, cases, counters, late_viols=None):
+    late_viols = late_viols if late_viols is not None else []
     rig = R.Rig(backend=backend, config={"analysis_delay": 0, "service_privatekey": ref.key_from_seed("service").sk_hex})
     await rig.start()
     try:
@@ -196,6 +199,43 @@ async def run_ws_api(backend, path, cases, counters):
                 counters["concurrent_twins"] = counters.get("concurrent_twins", 0) + 1
             rig.executor.delay = old_delay
             cases.extend(twins)
+            # ---- verified once is not verified for ever: a genuine event is accepted, (removed again by its
+            # author,) and then its id and signature come back around OTHER tags / another created_at
+            victim = ref.key_from_seed("c03-victim")
+            extra = counters.setdefault("resent_after_acceptance", {})
+            for j in range(8):
+                ev, key, tk = seeds.build({"kind": 1, "created_at": gen.T0 - 60 - j})
+                await conn.cmd(["EVENT", ev])
+                removed = j % 2 == 0
+                if removed:
+                    await conn.cmd(["EVENT", ref.make_event(key, kind=5, created_at=gen.T0 - 10, tags=[["e", ev["id"]]], content="del " + tk)])
+                await rig.quiesce()
+                tk2 = subm.token("resent")
+                forged = dict(ev)
+                if j % 4 < 2:
+                    forged["tags"] = [["delegation", victim.pk, "kind=1", "00" * 64], ["t", tk2]]
+                    what = "tags"
+                else:
+                    forged["created_at"] = ev["created_at"] + 1000
+                    forged["tags"] = [["t", tk2]]
+                    what = "created_at+tags"
+                n2 = rig.rec.n
+                m2 = rig.rec.n
+                await conn2.cmd(["EVENT", forged])
+                await rig.quiesce()
+                oks2 = R.ok_frames(conn2, n2)
+                ok2 = oks2[-1][1][2] if oks2 and len(oks2[-1][1]) > 2 else None
+                extra["submitted"] = extra.get("submitted", 0) + 1
+                dd = dump.dump(rig)
+                st = dd["events"].get(ev["id"])
+                stored_forged = bool(st and any(isinstance(t, list) and tk2 in t for t in st.get("tags", [])))
+                pushed_forged = any(isinstance(f, list) and len(f) >= 3 and f[0] == "EVENT" and isinstance(f[2], dict) and any(isinstance(t, list) and tk2 in t for t in f[2].get("tags", []))
+                                    for n, f in watcher.parsed_frames(m2))
+                if ok2 is True or stored_forged or pushed_forged:
+                    late_viols.append({"key": "%s/verified-earlier/%s-changed/%s" % ("acknowledged" if ok2 is True else ("stored" if stored_forged else "pushed"), what, "after-removal" if removed else "while-stored"),
+                                       "msg": "[%s/ws] an event was accepted%s; the same id and sig around different %s came back: OK=%s stored=%s pushed=%s"
+                                              % (backend, " and deleted by its author" if removed else "", what, ok2, stored_forged, pushed_forged),
+                                       "replay": {"backend": backend, "path": path, "raw": forged, "token": tk2, "label": "resent-after-acceptance", "shape": "kind1"}})
         await rig.quiesce()
         d = dump.dump(rig)
         pushed = [f[2] for n, f in watcher.parsed_frames() if isinstance(f, list) and len(f) >= 3 and f[0] == "EVENT" and isinstance(f[2], dict)]
@@ -299,8 +339,12 @@ def run_shard(spec):
     if path == "cli":
         d, pushed = run_cli(backend, cases, counters)
     else:
-        d, pushed = R.run(run_ws_api, backend, path, cases, counters)
+        late = []
+        d, pushed = R.run(run_ws_api, backend, path, cases, counters, late)
     viols, nontrivial = judge(backend, path, cases, d, pushed, counters)
+    if path == "ws":
+        viols.extend(late)
+        nontrivial.extend(h([backend, "resent-after-acceptance", i]) for i in range(counters.get("resent_after_acceptance", {}).get("submitted", 0)))
     seen, out = {}, []
     for v in viols:
         seen[v["key"]] = seen.get(v["key"], 0) + 1
